@@ -830,5 +830,15 @@ m('upload-records-declared-md5','C02',GCS,
 		md5Hash = obj.Md5Hash // keep the client's spelling of the hash
 	}
 	obj.Md5Hash = md5Hash''','R79/','the recorded hash is whatever string the client declared')
+# ---- C09 / R80: computed fields are baked from final values
+m('medialink-carries-the-generation','C09','storage/gcsemu/meta.go',
+  '''	meta.Size = size
+	meta.StorageClass = "STANDARD"
+}''','''	meta.Size = size
+	meta.StorageClass = "STANDARD"
+	if meta.Generation != 0 {
+		meta.MediaLink += fmt.Sprintf("&generation=%d", meta.Generation)
+	}
+}''','R80/','the file store bakes the link from the sidecar generation and overwrites the generation afterwards')
 json.dump(M, open('/verif/mutants.json','w'), indent=1)
 print(len(M),'mutants')
